@@ -74,6 +74,8 @@ Allowed == {[i \in 1..10 |-> IF i = 3 THEN 0 ELSE 0 - 1], [i \in 1..10 |-> i * 1
 (* ---- state ----------------------------------------------------------------------- *)
 OptSet == [minimal : BOOLEAN, mb : BOOLEAN, preserve : BOOLEAN, inc : BOOLEAN]
 OptMc == [minimal : BOOLEAN, mb : BOOLEAN, preserve : {FALSE}, inc : {TRUE}]
+OptMc2 == {[minimal |-> TRUE, mb |-> FALSE, preserve |-> FALSE, inc |-> TRUE], [minimal |-> FALSE, mb |-> TRUE, preserve |-> TRUE, inc |-> FALSE]}
+OptOne == {[minimal |-> FALSE, mb |-> TRUE, preserve |-> FALSE, inc |-> TRUE]}
 Init == /\ doc = EmptyDoc /\ phase = "build" /\ opts \in OptChoices /\ len \in Lens /\ steps = 0
         /\ hist = <<>> /\ act = [op |-> "init"]
 
@@ -92,6 +94,7 @@ VisPaths == {<<>>} \cup {<<i>> : i \in 1..Len(doc.vis)}
 
 Builder ==
     \/ \E z \in EntIdx \cap {0} : \E p \in Settings : Do([op |-> "SetSetting", name |-> p[1], val |-> p[2]])
+    \/ \E z \in EntIdx \cap {0} : \E p \in {<<"quickhide", 3>>, <<"instVis", 1>>} : Do([op |-> "SetSetting", name |-> p[1], val |-> p[2]])
     \/ \E z \in EntIdx \cap {0} : \E v \in Views : Do([op |-> "SetViews", views |-> v])
     \/ Len(doc.cams) < MaxCams /\ \E z \in EntIdx \cap {0} : \E p \in Vecs, l \in {VA, VC} : Do([op |-> "AddCamera", pos |-> p, look |-> l])
     \/ \E i \in 1..Len(doc.cams) : Do([op |-> "CamSetActive", i |-> i])
@@ -126,7 +129,9 @@ Builder ==
     \/ \E dummy \in {1, 2, 3} : \E e \in EntIdx : \E s \in SolidIdx(e) :
             \E p \in {<<"hidden", TRUE>>, <<"visShown", FALSE>>, <<"visAuto", FALSE>>, <<"cordon", TRUE>>,
                       <<"color", <<N(0), N(128), N(255)>>>>}
-                     \cup {<<"group", g>> : g \in GroupIds(doc)} \cup {<<"joinvis", g>> : g \in VisIds(doc)} :
+                     \* group / visgroup membership of a brush: world brushes only (inside a brush entity the
+                     \* membership is the entity's; Solid.export documents it as not allowed there)
+                     \cup (IF e = 0 THEN {<<"group", g>> : g \in GroupIds(doc)} \cup {<<"joinvis", g>> : g \in VisIds(doc)} ELSE {}) :
                 Do([op |-> "SetSolidAttr", e |-> e, s |-> s, name |-> p[1], val |-> p[2]])
     \/ \E dummy \in {1, 2} : \E e \in EntIdx : \E s \in SolidIdx(e) : \E f \in SideIdx(e, s) :
             \E p \in {<<"mat", m>> : m \in Mats} \cup {<<"u", ax>> : ax \in AxisVals} \cup {<<"v", ax>> : ax \in AxisVals}
